@@ -242,7 +242,24 @@ func (kr *keyring) serverKeys(names []string) []ech.Key {
 // (the split point cycles through the list from call to call). The keys a Conn holds are the concatenation.
 var keySplit atomic.Int64
 
-func keyOptions(keys []ech.Key) []ech.Option {
+// debugOptions: no WithDebug, WithDebug(nil), or a sink that really formats its arguments (and so touches whatever
+// values the library hands it) - logging must never change what a connection does
+var debugCycle atomic.Int64
+var debugSink atomic.Int64
+
+func debugOptions() []ech.Option {
+	switch debugCycle.Add(1) % 3 {
+	case 1:
+		return []ech.Option{ech.WithDebug(nil)}
+	case 2:
+		return []ech.Option{ech.WithDebug(func(format string, args ...any) { debugSink.Add(int64(len(fmt.Sprintf(format, args...)))) })}
+	}
+	return nil
+}
+
+func keyOptions(keys []ech.Key) []ech.Option { return append(keyOptionsOnly(keys), debugOptions()...) }
+
+func keyOptionsOnly(keys []ech.Key) []ech.Option {
 	if len(keys) == 0 { // "no keys" said in every way an application can
 		switch keySplit.Add(1) % 3 {
 		case 0:
